@@ -27,9 +27,11 @@
 (***************************************************************************)
 EXTENDS MC_Jasm, SequencesExt, Json, IOUtils
 
-Cases == JsonDeserialize(IOEnv.JASM_CASES).cases      \* [d, l, events]
+Cases == JsonDeserialize(IOEnv.JASM_CASES).cases      \* [u, d, l, events]: universe (1: macro documents, 2: feature documents)
 DocSeq == SetToSeq(Docs)
 LstSeq == SetToSeq(Lsts)
+DocSeq2 == SetToSeq(Docs2)
+LstSeq2 == SetToSeq(Lsts2)
 
 VARIABLES tid, l, verdict
 tvars == <<tid, l, verdict, allvars>>
@@ -42,8 +44,8 @@ AsSet(s) == { s[n] : n \in DOMAIN s }
 
 TraceInit ==
     /\ tid \in DOMAIN Cases /\ l = 1 /\ verdict = "run"
-    /\ rule = DocSeq[Cases[tid].d] /\ listing = LstSeq[Cases[tid].l]
-    /\ JInit
+    /\ LET c == Cases[tid] IN
+         IF c.u = 1 THEN JInitFor(DocSeq[c.d], LstSeq[c.l]) ELSE JInitFor(DocSeq2[c.d], LstSeq2[c.l])
 
 TLoadRule ==
     /\ IsEv("LoadRule") /\ Ev.outcome = "ok"
